@@ -609,10 +609,12 @@ def setup(ctx, mods):
 # ------------------------------------------------------------------ generator
 
 VLAYOUTS = ['C', 'view', 'i64', 'i64view']
-# layout pairs (y, y_hat): three core pairs in every shard, one rotating extra pair per shard in the quick tier
-CORE_PAIRS = [('C', 'C'), ('view', 'C'), ('i64', 'C')]
-EXTRA_PAIRS = [('view', 'view'), ('i64', 'i64'), ('i64view', 'i64view'), ('i64view', 'C'), ('view', 'i64'),
-               ('view', 'i64view'), ('i64', 'i64view')]
+# layout pairs (y, y_hat): the core pairs are compiled in every shard; the quick tier adds one rotating extra pair per
+# shard (numba compiles one specialisation per function x dtype x layout pair, ~0.3 s each), the thorough tier all 16
+CORE_PAIRS = [('C', 'C'), ('view', 'C'), ('i64', 'C'), ('i64', 'i64')]
+EXTRA_PAIRS = [('view', 'view'), ('i64view', 'i64view'), ('i64view', 'C'), ('view', 'i64'), ('view', 'i64view'),
+               ('i64', 'i64view'), ('C', 'view'), ('C', 'i64')]
+ALL_PAIRS = [(a, b) for a in VLAYOUTS for b in VLAYOUTS]
 CLASSES = ['rand', 'prop', 'equal', 'near', 'zeros', 'const', 'mixed', 'int', 'int-near', 'line']
 PLAYOUTS = ['C', 'F', 'view', 'i64']
 
@@ -716,16 +718,17 @@ def gen_case(rng, tier, shard, nshards):
         y = y - min(float(y.min()), 0.0)
         yh = np.abs(y + rng.normal(0, 1, n) * mag * 1e-3)
     ints = integral(y) and integral(yh)
-    pairs = list(CORE_PAIRS)
     if tier == 'quick':
-        pairs.append(EXTRA_PAIRS[shard % len(EXTRA_PAIRS)])
+        pairs = CORE_PAIRS + [EXTRA_PAIRS[shard % len(EXTRA_PAIRS)]]
     else:
-        pairs += EXTRA_PAIRS
-    pair = pick(rng, pairs) if rng.random() < 0.75 else ('C', 'C')
-    if rng.random() < 0.5:
-        pair = (pair[1], pair[0])
-    ly = pair[0] if (ints or not pair[0].startswith('i64')) else 'view'
-    lyh = pair[1] if (ints or not pair[1].startswith('i64')) else 'C'
+        pairs = ALL_PAIRS
+    if ints:
+        ipairs = [p for p in pairs if p[0].startswith('i64') or p[1].startswith('i64')]
+        pair = pick(rng, ipairs) if rng.random() < 0.85 else pick(rng, pairs)
+    else:
+        fpairs = [p for p in pairs if not (p[0].startswith('i64') or p[1].startswith('i64'))]
+        pair = pick(rng, fpairs) if rng.random() < 0.7 else ('C', 'C')
+    ly, lyh = pair
     pl = pick(rng, PLAYOUTS) if rng.random() < 0.6 else 'C'
     if pl == 'i64' and not (integral(x) and integral(y)):
         pl = 'F'
